@@ -11,7 +11,7 @@
 use vstd::prelude::*;
 verus! {
 
-pub struct Msg { pub sortable: bool, pub at: u64 }
+pub struct Msg { pub sortable: bool, pub at: u64, pub bytes: Ghost<Seq<u8>> }   // bytes: the word bytes a message quotes
 impl Msg {
     pub fn into(self) -> (r: Msg) ensures r == self { self }
 }
@@ -19,6 +19,9 @@ impl Msg {
 fn opaque_msg_at(b: bool, at: u64) -> (m: Msg) ensures m.sortable == b, m.at == at { unimplemented!() }
 #[verifier::external_body]
 fn opaque_msg_shaped(b: bool) -> (m: Msg) ensures m.sortable == b { unimplemented!() }
+/// message that renders `at` first and then quotes the given bytes, in this order
+#[verifier::external_body]
+fn opaque_msg_bytes(b: bool, at: u64, quoted: [u8; 10]) -> (m: Msg) ensures m.sortable == b, m.at == at, m.bytes@ == quoted@ { unimplemented!() }
 
 pub enum StatType { Error(Msg), Other }
 pub struct SendErr;
